@@ -15,6 +15,7 @@ inductive TForm where
   | argPlus (n : Nat) (k : Int)   -- @ARG(n) + k     (the argument text must be an atom)
   | reg (n : Nat)                 -- @REG(n)
   | indReg (n : Nat)              -- [@REG(n)]
+  | indRegArgMul (n : Nat) (k : Int)   -- [@REG(n) + k*@ARG(n)]   (the argument text must be an atom)
   | op (n : Nat)                  -- @OP(n)
 deriving Repr, Inhabited
 
@@ -59,6 +60,11 @@ def instTForm (v : VariantCfg) (m : Matched) (fs : List Form) : TForm → Except
   | .indReg n => match m.ops[n]? with
     | some p => match (findCfg v p.id).bind OperandCfg.regName with
       | some r => .ok (.ind (.label r)) | none => .error .other
+    | none => .error .other
+  | .indRegArgMul n k => match m.ops[n]? with
+    | some p => match (findCfg v p.id).bind OperandCfg.regName, p.arg with
+      | some r, some a => .ok (.ind (.bin .add (.label r) (.bin .mul (.num k) a.e)))
+      | _, _ => .error .other
     | none => .error .other
   | .op n =>
     -- @OP(n) is replaced by the text of the n-th MATCHED operand; with `empty` operands in front the
